@@ -26,6 +26,9 @@ func neverNil(v ssa.Value, d int) bool {
 			return false
 		}
 		f := x.Call.StaticCallee()
+		if f != nil && f.Pkg != nil && ((f.Pkg.Pkg.Path() == "fmt" && f.Name() == "Errorf") || (f.Pkg.Pkg.Path() == "errors" && f.Name() == "New")) {
+			return true
+		}
 		if f == nil || f.Blocks == nil || f.Signature.Results().Len() != 1 {
 			return false
 		}
@@ -84,6 +87,7 @@ func ImpliesNotYet(c Cond, at ssa.Instruction, events []ssa.Instruction) bool {
 		return true
 	}
 	var cell ssa.Value
+	nilMode := false
 	var isD func(v ssa.Value) (known bool, isd bool)
 	switch v := c.V.(type) {
 	case *ssa.BinOp:
@@ -102,6 +106,7 @@ func ImpliesNotYet(c Cond, at ssa.Instruction, events []ssa.Instruction) bool {
 			return false
 		}
 		cell = x
+		nilMode = true
 		isD = func(w ssa.Value) (bool, bool) {
 			if IsNilConst(w) {
 				return true, true
@@ -157,6 +162,9 @@ func ImpliesNotYet(c Cond, at ssa.Instruction, events []ssa.Instruction) bool {
 			if known && !d {
 				continue
 			}
+			if ex, isEx := Unwrap(e).(*ssa.Extract); isEx && nilMode && extractNonNilOnSuccess(ex, pred, w.Block()) {
+				continue // result of a helper that is non-nil whenever its error is nil, and the error was tested on the way here
+			}
 			// d (or possibly d) injected here: the edge must not be traversable after an event
 			if after[pred] {
 				return false
@@ -165,4 +173,65 @@ func ImpliesNotYet(c Cond, at ssa.Instruction, events []ssa.Instruction) bool {
 		return true
 	}
 	return okWeb(ph)
+}
+
+// extractNonNilOnSuccess: ex is result #i of a call of an in-repo function whose last result is an error; every return
+// of that function either yields a never-nil value at #i or a non-nil error, and block b is only reached with the
+// call's error tested to be nil.
+func extractNonNilOnSuccess(ex *ssa.Extract, b, succ *ssa.BasicBlock) bool {
+	call, ok := ex.Tuple.(*ssa.Call)
+	if !ok {
+		return false
+	}
+	f := call.Call.StaticCallee()
+	if f == nil || f.Blocks == nil {
+		return false
+	}
+	res := f.Signature.Results()
+	ei := res.Len() - 1
+	if ei < 1 || ex.Index >= ei || !IsErrorType(res.At(ei).Type()) {
+		return false
+	}
+	rets := Returns(f)
+	if len(rets) == 0 {
+		return false
+	}
+	for _, r := range rets {
+		rv := RetVals(r)
+		if len(rv) != res.Len() {
+			return false
+		}
+		if neverNil(rv[ex.Index], 2) {
+			continue
+		}
+		if IsNilConst(rv[ei]) {
+			return false
+		}
+		if !neverNil(rv[ei], 2) {
+			// an error value of unknown origin: accept only values that were tested non-nil on the way to the return
+			okErr := false
+			for _, dc := range DomCondsBlock(r.Block()) {
+				if bo, isB := dc.V.(*ssa.BinOp); isB && IsNilConst(bo.Y) && bo.X == rv[ei] && ((bo.Op == token.NEQ && dc.Pol) || (bo.Op == token.EQL && !dc.Pol)) {
+					okErr = true
+				}
+			}
+			if !okErr {
+				return false
+			}
+		}
+	}
+	for _, dc := range EdgeConds(b, succ) {
+		bo, isB := dc.V.(*ssa.BinOp)
+		if !isB || !IsNilConst(bo.Y) {
+			continue
+		}
+		e2, isEx := bo.X.(*ssa.Extract)
+		if !isEx || e2.Tuple != ex.Tuple || e2.Index != ei {
+			continue
+		}
+		if (bo.Op == token.EQL && dc.Pol) || (bo.Op == token.NEQ && !dc.Pol) {
+			return true
+		}
+	}
+	return false
 }
